@@ -318,7 +318,9 @@ func tokenize(src string) []token {
 					p := toks[len(toks)-1]
 					switch p.k {
 					case tPunct:
-						block = p.s == ")" || p.s == ";" || p.s == "{" || p.s == "}" || p.s == "=>"
+						// after "]", "++", "--" (the end of an expression) a "{" can only start a block (ASI) — an object literal needs
+						// an operator or an opening bracket before it
+						block = p.s == ")" || p.s == ";" || p.s == "{" || p.s == "}" || p.s == "=>" || p.s == "]" || p.s == "++" || p.s == "--"
 						if p.s == ":" {
 							// label / case clause => block; property value or conditional branch => object
 							encl := byte('B')
